@@ -118,7 +118,10 @@ type keyForm struct{ raw, name string } // JSON text of the key (with quotes) an
 var plainKeys = []keyForm{{`"a"`, "a"}, {`"b"`, "b"}, {`"c"`, "c"}, {`"msg"`, "msg"}, {`"level"`, "level"}, {`"k8s_pod"`, "k8s_pod"},
 	{`"ts"`, "ts"}, {`"a.b"`, "a.b"}, {`"x y"`, "x y"}, {`"A"`, "A"}, {`"a|b"`, "a|b"}, {`"p|"`, "p|"}}
 var fancyKeys = []keyForm{{`"k\"q"`, `k"q`}, {`"tab\tx"`, "tab\tx"}, {`"sl\/ash"`, "sl/ash"}, {`"bs\\x"`, `bs\x`}, {`"unié"`, "unié"},
-	{`"é"`, "é"}, {`"emo😀"`, "emo😀"}, {`"😀pair"`, "😀pair"}, {`""`, ""}, {`"<&>"`, "<&>"}, {`"nl\nx"`, "nl\nx"}, {`"Az"`, "Az"}, {`"日本"`, "日本"}}
+	{`"é"`, "é"}, {`"emo😀"`, "emo😀"}, {`"😀pair"`, "😀pair"}, {`""`, ""}, {`"<&>"`, "<&>"}, {`"nl\nx"`, "nl\nx"}, {`"Az"`, "Az"}, {`"日本"`, "日本"},
+	// characters that JSON escapes as \u00XX or leaves raw, and Go's strconv.Quote writes as \x01 \a \v \x7f \U000e0001
+	{`"c\u0001x"`, "c\x01x"}, {`"bel\u0007"`, "bel\a"}, {`"vt\u000b"`, "vt\v"}, {"\"del\x7f\"", "del\x7f"},
+	{"\"tag\U000E0001\"", "tag\U000E0001"}, {`"\udb40\udc01esc"`, "\U000E0001esc"}, {`"ff\u000c"`, "ff\f"}}
 
 // indexDoc renders `{k0:0, k1:1, ...}` with irregular white space (so that a re-encoded answer never equals the stored bytes).
 func indexDoc(keys []keyForm, r *vh.RNG) []byte {
@@ -280,6 +283,78 @@ func filterChannel(o vh.Opts, r *vh.RNG) *vh.Channel {
 
 // ---------------------------------------------------------------- channel fields.pipe
 
+// kwCase writes a keyword in one of the spellings the lexer accepts (lexer.IsKeyword is case-insensitive).
+func kwCase(r *vh.RNG, kw string) string {
+	switch r.Intn(4) {
+	case 0:
+		return strings.ToUpper(kw)
+	case 1:
+		return strings.ToUpper(kw[:1]) + kw[1:]
+	}
+	return kw
+}
+
+// parseChannel: parser.parsePipeFields (through search.tryParseFieldsFilter) vs SV.Fields.parsePipeFields on token lists.
+func parseChannel(o vh.Opts, r *vh.RNG) *vh.Channel {
+	ch := vh.NewChannel("fields.parse", "search.tryParseFieldsFilter(`* | <tokens>`) vs SV.Fields.parsePipeFields on the generated token list: keywords fields/except in lower, UPPER and Capitalised spelling, quoted \"except\" / \"fields\" / \"EXCEPT\" as field names, names with and without commas, error shapes (missing list, leading / trailing / double comma, no fields keyword); non-trivial = the pipe parses")
+	type tok struct {
+		text   string
+		quoted bool
+	}
+	names := []tok{{"a", false}, {"message", false}, {"k8s_pod", false}, {"level", false}, {"except", true}, {"EXCEPT", true}, {"fields", true},
+		{"x y", true}, {"a|b", true}, {"Except", true}, {"ts", false}, {"zone_1", false}}
+	n := o.Pick(600, 8000)
+	for i := 0; i < n; i++ {
+		var ts []tok
+		tags := []string{}
+		if r.Intn(12) == 0 {
+			ts = append(ts, tok{"field", false}) // not the keyword
+			tags = append(tags, "no-keyword")
+		} else {
+			ts = append(ts, tok{kwCase(r, "fields"), false})
+		}
+		if r.Intn(2) == 0 {
+			ts = append(ts, tok{kwCase(r, "except"), false})
+			tags = append(tags, "except-keyword="+ts[len(ts)-1].text)
+		}
+		k := r.Intn(5)
+		for j := 0; j < k; j++ {
+			if j > 0 && r.Intn(5) > 0 {
+				ts = append(ts, tok{",", false})
+			}
+			ts = append(ts, names[r.Intn(len(names))])
+		}
+		switch r.Intn(14) {
+		case 0:
+			ts = append(ts, tok{",", false})
+			tags = append(tags, "trailing-comma")
+		case 1:
+			if len(ts) > 1 {
+				ts = append(ts[:1], append([]tok{{",", false}}, ts[1:]...)...)
+				tags = append(tags, "comma-first")
+			}
+		}
+		var text, model []string
+		for _, t := range ts {
+			if t.quoted {
+				text = append(text, `"`+t.text+`"`)
+				model = append(model, "q"+nameHex(t.text))
+			} else {
+				text = append(text, t.text)
+				model = append(model, "u"+nameHex(t.text))
+			}
+		}
+		q := "service:c20 | " + strings.Join(text, " ")
+		fields, allow := search.VerifC20ParseFieldsFilter(q)
+		impl := "err"
+		if len(fields) > 0 {
+			impl = fmt.Sprintf("ok %s %s rest=0", vh.B(allow), namesHex(fields, ","))
+		}
+		ch.Add("parse "+strings.Join(model, ","), impl, impl != "err", tags...)
+	}
+	return ch
+}
+
 func pipeChannel(o vh.Opts, r *vh.RNG) *vh.Channel {
 	ch := vh.NewChannel("fields.pipe", "proxy/search.tryParseFieldsFilter on generated SeqQL queries (filter part x optional `| fields [except] names`, quoted names, a second fields pipe = parse error, legacy/invalid queries) vs SV.Fields.firstFieldsPipe on the generated pipe list; non-trivial = a fields pipe is present")
 	filters := []string{`message:a`, `*`, `level:info and not k8s_pod:x*`, `(a:b or c:d)`, `message:"x | fields y"`}
@@ -312,9 +387,9 @@ func pipeChannel(o vh.Opts, r *vh.RNG) *vh.Channel {
 				fs = append(fs, nm)
 				qs = append(qs, quote(nm))
 			}
-			q += " | fields "
+			q += " | " + kwCase(r, "fields") + " "
 			if except {
-				q += "except "
+				q += kwCase(r, "except") + " "
 			}
 			q += strings.Join(qs, []string{", ", ",", " , "}[r.Intn(3)])
 			switch r.Intn(5) {
@@ -359,7 +434,8 @@ func (s *fakeStream) Send(d *pb.BinaryData) error {
 
 func genValue(r *vh.RNG, depth int) string {
 	scalars := []string{`0`, `-0`, `1.50e3`, `1E+2`, `-12.0`, `123456789012345678901234567890`, `0.000001`, `true`, `false`, `null`,
-		`""`, `"x"`, `"a\"b"`, `"line\nbreak"`, `"tab\t"`, `"unié中"`, `"é中😀"`, `"😀"`, `"sl\/ash"`, `"back\\slash"`, `"<&>"`, `"{\"nested\":\"json\"}"`}
+		`""`, `"x"`, `"a\"b"`, `"line\nbreak"`, `"tab\t"`, `"unié中"`, `"é中😀"`, `"😀"`, `"sl\/ash"`, `"back\\slash"`, `"<&>"`, `"{\"nested\":\"json\"}"`,
+		`"v\u0001"`, `"bel\u0007vt\u000b"`, "\"del\x7f\"", "\"tag\U000E0001\"", `"\udb40\udc01"`}
 	if depth >= 3 || r.Intn(3) > 0 {
 		return scalars[r.Intn(len(scalars))]
 	}
@@ -518,10 +594,10 @@ func searchOracle(o vh.Opts, r *vh.RNG, rep *vh.Report, g *storeapi.GrpcV1, docs
 			continue
 		}
 		allow := r.Bool()
-		qs := "service:c20 | fields "
+		qs := "service:c20 | " + kwCase(r, "fields") + " "
 		mode := "allow"
 		if !allow {
-			qs += "except "
+			qs += kwCase(r, "except") + " "
 			mode = "except"
 		}
 		qs += strings.Join(qn, ", ")
@@ -967,9 +1043,9 @@ func fetchOracle(o vh.Opts, r *vh.RNG, rep *vh.Report) *vh.Oracle {
 		}
 		if simple && r.Bool() {
 			via = "query"
-			qs := "service:c20 | fields "
+			qs := "service:c20 | " + kwCase(r, "fields") + " "
 			if !allow {
-				qs += "except "
+				qs += kwCase(r, "except") + " "
 			}
 			qn := make([]string, len(fields))
 			for i, f := range fields {
@@ -1117,6 +1193,9 @@ func main() {
 	}
 	if run("fields.pipe") {
 		rep.AddChannel(pipeChannel(o, r2), o.Driver)
+	}
+	if run("fields.parse") {
+		rep.AddChannel(parseChannel(o, rng.Fork()), o.Driver)
 	}
 	if run("fields.fetch") {
 		rep.AddOracle(fetchOracle(o, r3, rep))
